@@ -31,6 +31,23 @@ CHECKS.update({
              note=TB + "The cursor abstracts std::list iterators as list positions; pre/post-increment agreement and repeatability are trivial in a pure model and are checked on the implementation only.",
              tech="Coq proof about the iterator cursor model + exhaustive small-graph correspondence", ref="DESIGN.md §6 C08"),
 })
+CHECKS.update({
+ 'C07': dict(text="Theorems C07_* (Coq): for each of the six class models and EVERY state (no reachability hypothesis), a mutator receiving a vertex index >= getSize() in any argument "
+                  "position, with force on or off, returns Thrown OutOfRange together with exactly the state it was given; resize-to-fewer, unforced setEdgeLabel and getEdgeLabel on a "
+                  "missing edge give InvalidArgument with the state unchanged; vertex-taking observers raise OutOfRange. Tied to /repo by histories interleaving valid and rejected calls "
+                  "(size, size+1, UINT_MAX; every position; both flag values; out-of-range queries of every observer) under ASan+UBSan, all observers compared after every call. "
+                  "PARTIAL with respect to the property text: subgraph extraction and the path searches are covered under C10/C11/C12 once their models are in (see DESIGN.md).",
+             note=TB + "Out-of-bounds reads/writes themselves are a runtime notion: the model proves 'Thrown, state unchanged'; a sanitizer abort of the harness is reported as a violation.",
+             tech="Coq proof (rejected call = Thrown + identical state, all states) + differential correspondence under ASan/UBSan", ref="DESIGN.md §6 C07"),
+ 'C16': dict(text="Theorems C16_* (Coq), on the weak invariant kept by forced insertions: addEdge(force=true) adds exactly one copy (list multiplicity and edge count +1, hasEdge true, label "
+                  "set), removeEdge deletes all copies and lowers the count by their number, removeDuplicateEdges restores the full C01 invariant with the same connected pairs, one copy "
+                  "each, labels untouched. The multiset spec oracle (copies + last label per pair; multigraph/weighted: opinion only once no pair is duplicated) and the Coq model are "
+                  "compared with /repo on histories mixing forced/unforced insertions, removeEdge and removeDuplicateEdges for all six classes.",
+             note=TB + "Proved for the directed labelled model; the undirected, multigraph and weighted forced behaviour is covered by the correspondence with the model and by the spec oracle, "
+                  "not yet by theorems. For multigraphs 'the graph built without force' is read as the deduplicated graph (one copy per pair carrying the common multiplicity), as the "
+                  "repository's own tests do.",
+             tech="Coq lemmas on the weak (duplicate-tolerant) invariant + differential correspondence with a multiset spec oracle", ref="DESIGN.md §6 C16"),
+})
 NA = {'C20': "about the C++ type checker/linker accepting client programs (template instantiation, overload resolution, ODR): no executable Gallina model has a counterpart, so machine-checked proof cannot apply (DESIGN.md §6 C20)"}
 def main():
     props = [json.loads(l)['id'] for l in open(os.path.join(ROOT, 'properties.jsonl'))]
